@@ -349,6 +349,8 @@ def expected(b: Block) -> OrderedDict:
             d[it[1]] = kv
         elif kind == "repeated":
             d.setdefault(it[1], []).append(it[2])
+        elif kind == "include":
+            d.setdefault("include", []).append(it[1])
         elif kind == "config":
             d.setdefault("config", OrderedDict())[it[1].lower()] = it[2]
         elif kind == "projection":
@@ -429,6 +431,8 @@ def render(b: Block, lay: Layout = None, ind=0) -> str:
                 for s in it[1]:
                     out.append(lay.nl(ind + 2) + lay.q(s))
             out.append(lay.nl(ind + 1) + lay.kw("END"))
+        elif kind == "include":
+            out.append(it[2])          # a ready-made INCLUDE line
         elif kind == "points":
             out.append(lay.kw(it[1]))
             for x, y in it[2]:
